@@ -57,7 +57,12 @@ class BoundedStream(io.IOBase):
         return self
 
     def __next__(self) -> bytes:
-        return next(self.stream)
+        # NOTE: iterate through readline() so that iteration is bounded by
+        # the declared length, just like every other way of reading.
+        line = self.readline()
+        if not line:
+            raise StopIteration
+        return line
 
     next = __next__
 
